@@ -330,6 +330,10 @@ def bounded(ctx):
 
     # ---- 1. explicit-state exploration, one and two sections
     if quick:
+        ctx.check("explore_1sec", "all histories up to depth 5 on one section, width 10, 6 texts (lengths 3,9,10,11,21 and a 2-line text); "
+                                  "one representative per distinct state extended")
+        complete, nstates, fails = _explore(ctx, 5, specs_q, 1)
+        ctx.done(exhaustive=complete, note="distinct states %d; %s" % (nstates, fails.note()))
         ctx.check("explore_2sec", "all histories up to depth 4 over <= 2 sections, width 10, 6 texts (lengths 3,9,10,11,21 and a 2-line text); "
                                   "one representative per distinct state extended")
         complete, nstates, fails = _explore(ctx, 4, specs_q, 2)
